@@ -8,6 +8,7 @@ def run(ctx: Ctx) -> list[Ob]:
     obs = r6.r6a(ctx) + r6.r6b(ctx) + r6.r6c(ctx) + r6.r6d(ctx)
     obs += r6e.r6e(ctx)
     obs += r6e.r6w(ctx)
+    obs += r6.r6g(ctx)
     obs += r14.edge_multiplicity(ctx)
     obs += r6t_mod.r6t(ctx)
     return obs
@@ -30,6 +31,7 @@ SPEC = PropSpec(
         " R6w: no class of the compile path (backend, pipeline, BiMap, operator registry) keeps its registrations in a weak container -- an association that lives only while the caller holds the symbolic circuit makes the operator functions on compiled circuits fail for every derived circuit."
         ' R14s: successor lists keep one entry per edge -- topological_ordering / layerwise_topological_ordering count predecessors with multiplicity and decrement once per listed successor, so graph_nodes_outgoings appends once per occurrence (no set, no membership guard) and every explicit outcomings_fn is a node_outputs method or a lookup in such a mapping, never a membership filter: c * c has operands (c, c), and a successor listed once while its predecessors are counted twice never becomes ready (the pipeline then reports a cycle instead of compiling the operand first).'
         ' R6t: a registry class constructed from a mapping it later mutates (add_rule) copies that mapping in its constructor: the compilers are built from the module-level default rule tables, and a registry that keeps the dict it was given makes a rule added to one compiler / pipeline context active in every other one.'
+        ' R6g: a generator-based context manager (contextlib.contextmanager) restores in the finally of a try containing its yield: an exception escaping the with-block is raised at the yield, and statements after it are skipped.'
     ),
     not_decided="re-entrancy of one context object (excluded by the property); thread/async interleavings of ContextVar (Python semantics).",
     run=run,
